@@ -261,6 +261,7 @@ func checkC17(c *Ctx, r *Report) {
 		return
 	}
 	c.checkUnquoter(r, g)
+	c.checkLexerTables(r)
 	c.checkAlternatives(r, g)
 	c.checkExprKeys(r)
 	// grammar-level clauses: whitespace is skipped, a trailing comma is optional, the whole input is one expression
@@ -626,6 +627,60 @@ func (c *Ctx) checkUnquoter(r *Report, g *grammarInfo) {
 	})
 	if !strip && len(bad) == 0 {
 		bad = append(bad, "the surrounding quotes are not removed by slicing [1:len-1]")
+	}
+	// every escape is resolved: the read of the escaped character s[i+1] is skipped only when no such byte exists —
+	// whenever its bounds guard fails, i+1 >= len(s) must follow (for all i and lengths)
+	{
+		lc := &linCtx{c: c, fn: callee, vars: map[string]ssa.Value{}}
+		eachInstr(callee, func(in ssa.Instruction) {
+			lk, ok := in.(*ssa.Index) // s[i] on a string
+			if !ok || !isStringType(lk.X.Type()) {
+				return
+			}
+			if _, isPhi := lk.Index.(*ssa.Phi); isPhi {
+				return // the current byte
+			}
+			idx := lc.lin(lk.Index, 0)
+			if len(idx) != 1 {
+				return
+			}
+			var lenCall ssa.Value
+			eachInstr(callee, func(j ssa.Instruction) {
+				if call, ok := j.(*ssa.Call); ok {
+					if bi, ok := call.Call.Value.(*ssa.Builtin); ok && bi.Name() == "len" && call.Call.Args[0] == lk.X {
+						lenCall = call
+					}
+				}
+			})
+			if lenCall == nil {
+				return
+			}
+			lenVar := lc.varName(lenCall)
+			for _, g := range guardsOfInstr(lk) {
+				fs, ok := lc.condFacts(g.Cond, g.Polarity)
+
+				if !ok {
+					continue
+				}
+				mentions := false
+				for _, f := range fs {
+					if f.L.Coef[lenVar] != 0 {
+						mentions = true
+					}
+				}
+				if !mentions {
+					continue
+				}
+				nfs, ok := lc.condFacts(g.Cond, !g.Polarity)
+				if !ok {
+					continue
+				}
+				facts := append([]Ineq{{linVar(lenVar)}}, nfs...)
+				if ok2, wit := implies(facts, Ineq{idx[0].L.add(linVar(lenVar), -1)}); !ok2 {
+					bad = append(bad, fmt.Sprintf("an escape is left unresolved although its character exists: the bounds test guarding the read at %s can fail while the index is still inside the string (e.g. %s) — an escape right before the closing quote keeps its backslash", c.instrPos(lk), wit))
+				}
+			}
+		})
 	}
 	table, hasDefaultIdentity, ok := c.unquoteSwitchTable(callee)
 	if !ok {
